@@ -227,7 +227,7 @@ def valid_call(ctx, t, kernel, fn):
         yv = gen_values(t, (f,), dt)
     X = layout(ctx, t, Xv, ('C', 'C', 'F', 'strided', 'neg', 'offset'))
     y = layout(ctx, t, yv, ('C', 'C', 'strided', 'neg'))
-    out_kind = t.draw(4)           # 0/1 none, 2 dirty contiguous, 3 dirty strided view
+    out_kind = t.draw(5)           # 0/1 none, 2 dirty contiguous, 3 dirty strided view, 4 dirty reversed view
     out = None
     if out_kind == 2:
         out = np.empty(n, dtype=np.float64)
@@ -239,9 +239,14 @@ def valid_call(ctx, t, kernel, fn):
         out[...] = t.choice((np.nan, 1e300, -7.0))
         ctx.hit('dirty_out')
         ctx.hit('strided_out')
+    elif out_kind == 4:
+        base_out = np.full(n, 7.25, dtype=np.float64)
+        out = base_out[::-1]
+        ctx.hit('dirty_out')
+        ctx.hit('strided_out')
     T, dec = gomp_config(ctx, t, n)
     ctx.scenario.update(kind='valid', kernel=kernel, dtype=dt, shape=[n, f], X_strides=list(X.strides), y_strides=list(y.strides),
-                        out=('none', 'none', 'dirty', 'dirty-strided')[out_kind], team=T,
+                        out=('none', 'none', 'dirty', 'dirty-strided', 'dirty-reversed')[out_kind], team=T,
                         X=Xv[:6].tolist(), y=yv.tolist())
     ctx.fp(kernel, dt, n, f, X.strides, y.strides, out_kind, T, tuple(dec[:2 * T]), Xv.tobytes(), yv.tobytes())
     Xs, ys = X.copy(), y.copy()
